@@ -320,3 +320,32 @@ func VerifH_C19_input() {
 		verifrt.Assert(v == verifNorm(in), "every step observes the schema-normalised input S(U(x))")
 	}
 }
+
+// C06 (run-loop side): the caller's context is cancelled at an arbitrary event position.
+func VerifH_C06_cancel_anytime() {
+	t := verifChain2()
+	ew, run := verifPrepare(t)
+	in := verifrt.NondetVal("input")
+	res := &vResult{}
+	ctx, cancel := context.WithCancel(context.Background())
+	run.cancel = cancel
+	run.cancelAt = 1 + verifrt.Choice("cancelAt", verifrt.Param("maxEvents", 14))
+	verifrt.Go(func() {
+		verifrt.AwaitQuiescence()
+		verifAtomicMark(res, run, t)
+		if !run.cancelled {
+			run.cancelled = true
+			run.cancelT = verifrt.Now()
+		}
+		cancel()
+	})
+	res.id, res.data, res.err = ew.Execute(ctx, in)
+	tEnd := verifrt.Now()
+	verifAtomicReturned(res)
+	cancel()
+	if run.cancelled {
+		verifrt.Reach("cancelled")
+		verifrt.Assert((tEnd-run.cancelT)/1000000 <= 5000, "after cancellation the run returns within the grace period plus the steps' closure timeouts")
+	}
+	verifCheck(t, run, res, verifNorm(in), vCheckOpts{cancelled: true})
+}
